@@ -44,3 +44,23 @@ func init() {
 		Rules: []Rule{RuleAOrder, RuleAArrival},
 	})
 }
+
+func init() {
+	claim(&Property{
+		ID: "C01",
+		Decides: []string{
+			"(C-posting, C-postings) postings exist only as builder-made pairs: posting.Posting is allocated only in posting.Builder.Build, and every value stored into a Postings field comes from the pair builder or another Postings field (29 sites incl. all importers);",
+			"(J-pair) the pair literal carries {x.Neg(), x} for Quantity and Value, swapped Account/Other and one Commodity inside one expression;",
+			"(C-value, J-valuation) no later write breaks the anti-symmetry: Quantity/Account/Other/Commodity are never written after construction, Value only by the valuation callback, where each stored value is an odd-symmetric function of the same posting's Quantity (table over shopspring/decimal, followed through NormalizedPrices.Valuate and price.Multiply) and the store is not control-dependent on the posting's side;",
+			"(K-daytx) whole transactions, never single postings, are added to or dropped from a day;",
+			"(K-insert) the balance report adds each posting with a non-nil mapped account exactly once on every path, keyed by the transaction's date;",
+			"(K-delta) the Delta row is Totals()#0 after Plus(Totals()#1), not negated, with no Minus on the flow.",
+		},
+		NotDecided: []string{
+			"that shopspring/decimal is exact (trusted);",
+			"anything about filters and mappings (the property excludes them);",
+			"a wrong-but-symmetric value (that is C03).",
+		},
+		Rules: []Rule{RuleCPosting, RuleCPostings, RuleJPair, RuleCValue, RuleJValuation, RuleKDayTx, RuleKInsert, RuleKDelta},
+	})
+}
